@@ -13,7 +13,7 @@ from typing import Dict, List, Optional, Set, Tuple
 
 from . import canon as C
 from .canon import Env
-from .compare import Side
+from .compare import Inconclusive,  Side
 from .frontend import FuncInfo, Repo
 from .ir import IRBuilder
 from .report import Ob, ok, violation, inconclusive, info
@@ -136,13 +136,6 @@ def r15_4_threshold_definition(ctx, rule: str = 'R15.4', rule_mirror: str = 'R08
     fn = _fn(fi)
     ps = [a.arg for a in fi.node.args.args]
     s, t_start, t_end = ps[:3]
-    bld = IRBuilder()
-    items = bld.build(fi.node.body)
-    side = Side(fi)
-    pe = PathExec(side)
-    # split: the early return for N == 0
-    first_if = next((it for it in items if it[0] == 'if'), None)
-    env = Env()
     N = C.atom(('call', 'len', (C.atom(('n', s)),)))
     ts, te = C.atom(('n', t_start)), C.atom(('n', t_end))
 
@@ -150,105 +143,115 @@ def r15_4_threshold_definition(ctx, rule: str = 'R15.4', rule_mirror: str = 'R08
         return C.atom(('sub', ('n', s), idx))
     last = C.sub(N, C.ONE)
     gt1 = C.mk_cmp('gt', N, C.ONE)
-    # empty train
-    t = "isi_lengths: a train without spikes contributes one interval t_end - t_start"
-    good = False
-    if first_if is not None and len(first_if[1]) == 1:
-        e0 = Env()
-        for it in items[:items.index(first_if)]:
-            if it[0] == 'simple':
-                from .compare import Region
-                pe.cmp.exec_simple(it[1], e0, Region(), side)
-        c = C.canon_cond(first_if[1][0][0], e0)
-        body = first_if[1][0][1]
-        if c == C.mk_cmp('eq', N, C.ZERO) and body and body[-1][0] == 'return':
-            rv = C.canon_expr(body[-1][1], e0)
-            good = rv == C.atom(('list', (C.sub(te, ts),)))
-    obs.append(ok(rule, t, fi.loc(), construct=f"{fn}::empty") if good else
-               violation(rule, t, fi.loc(), key=f"{fn}::empty-train"))
-    rest = [it for it in items if it is not first_if]
-    paths = list(pe.paths([it for it in rest if it[0] != 'return'], Env(), [], []))
-    ret_item = next((it for it in rest if it[0] == 'return'), None)
+    from .rules_classes import MethodPaths
+    try:
+        mp = MethodPaths(fi).run()
+    except (Inconclusive, C.CanonError) as e:
+        return [inconclusive(rule, 'isi_lengths: paths enumerable', fi.loc(), str(e), construct=fn)]
+    empty = {C.mk_cmp('eq', N, C.ZERO), C.mk_cmp('lt', N, C.ONE), C.mk_cmp('le', N, C.ZERO)}
+    nonempty = {C.mk_cmp('gt', N, C.ZERO), C.mk_cmp('ge', N, C.ONE), C.mk_cmp('ne', N, C.ZERO)}
+    empty |= {C.mk_not(c) for c in nonempty}
+    nonempty |= {C.mk_not(c) for c in empty}
+    c_first = C.mk_cmp('gt', sub(C.ZERO), ts)
+    c_last = C.mk_cmp('lt', sub(last), te)
     want = {
         ('start', True): C.atom(('ifexp', gt1, C.mk_minmax('max', [C.sub(sub(C.ZERO), ts), C.sub(sub(C.ONE), sub(C.ZERO))]), C.sub(sub(C.ZERO), ts))),
         ('start', False): C.atom(('ifexp', gt1, C.sub(sub(C.ONE), sub(C.ZERO)), C.sub(ts, sub(C.ZERO)))),
-        ('end', True): C.atom(('ifexp', gt1, C.mk_minmax('max', [C.sub(te, sub(last)), C.sub(sub(last), sub(C.sub(last, C.ONE)))]), C.sub(te, sub(C.ZERO)))),
-        ('end', False): C.atom(('ifexp', gt1, C.sub(sub(last), sub(C.sub(last, C.ONE))), C.sub(sub(C.ZERO), te))),
+        ('end', True): C.atom(('ifexp', gt1, C.mk_minmax('max', [C.sub(te, sub(last)), C.sub(sub(last), sub(C.sub(last, C.ONE)))]), C.sub(te, sub(last)))),
+        ('end', False): C.atom(('ifexp', gt1, C.sub(sub(last), sub(C.sub(last, C.ONE))), C.sub(sub(last), te))),
     }
-    c_first = C.mk_cmp('gt', sub(C.ZERO), ts)
-    c_last = C.mk_cmp('lt', sub(last), te)
-    seen = set()
-    starts: Dict[bool, C.Term] = {}
-    ends: Dict[bool, C.Term] = {}
-    for env_p, stores, conds in paths:
-        is_first = c_first in conds
-        is_last = c_last in conds
-        vals = {nm: v for nm, v in env_p.vals.items()}
-        # role discovery: the two variables whose value matches a start / end form (or that are concatenated in the result)
-        for tag, flag in (('start', is_first), ('end', is_last)):
-            key = (tag, flag)
-            if key in seen:
-                continue
-            seen.add(key)
-            w = want[key]
-            holder = [nm for nm, v in vals.items() if v == w]
-            what = {('start', True): 'first interval when the first spike is after t_start: max(s[0]-t_start, s[1]-s[0]) if N>1 else s[0]-t_start',
-                    ('start', False): 'first interval when the first spike sits on t_start: s[1]-s[0] if N>1 else a zero-length interval',
-                    ('end', True): 'last interval when the last spike is before t_end: max(t_end-s[-1], s[-1]-s[-2]) if N>1 else t_end-s[0]',
-                    ('end', False): 'last interval when the last spike sits on t_end: s[-1]-s[-2] if N>1 else a zero-length interval'}[key]
-            t = f"isi_lengths: {what}"
-            if holder:
-                obs.append(ok(rule, t, fi.loc(), construct=f"{fn}::{tag}::{flag}"))
-                (starts if tag == 'start' else ends)[flag] = w
-            else:
-                cand = {nm: C.show(v) for nm, v in vals.items() if nm.startswith('del')}
-                obs.append(violation(rule, t, fi.loc(), key=f"{fn}::{tag}-rule::{'open' if flag else 'on-edge'}",
-                                     detail=f"expected {C.show(w)}; found {cand}"))
-    # rho mirror of the two edge rules (as implemented)
+    what = {('start', True): 'first interval when the first spike is after t_start: max(s[0]-t_start, s[1]-s[0]) if N>1 else s[0]-t_start',
+            ('start', False): 'first interval when the first spike sits on t_start: s[1]-s[0] if N>1 else a zero-length interval',
+            ('end', True): 'last interval when the last spike is before t_end: max(t_end-s[-1], s[-1]-s[-2]) if N>1 else t_end-s[-1]',
+            ('end', False): 'last interval when the last spike sits on t_end: s[-1]-s[-2] if N>1 else a zero-length interval'}
+    bnd = C.atom(('bound', 0))
+    elt = C.sub(sub(C.add(bnd, C.ONE)), sub(bnd))
+
+    def interior(i_start, i_end):
+        r = C.mk_call('range', (i_start, C.sub(i_end, C.ONE)), ())
+        r = r if C.is_poly(r) else C.atom(r)
+        return C.atom(('listcomp', elt, ((r, (0,), ()),)))
+
+    def lst(v):
+        return C.atom(('list', (v,)))
+
+    def one_spike(tm, conds):
+        # a non-empty train for which `N > 1` fails has exactly one spike: s[N-1] is s[0] - on such a path, and
+        # inside the else-alternative of every `... if N > 1 else ...` value
+        n_atom = C.single_atom(N)
+        if C.mk_not(gt1) in conds:
+            return C.subst_atoms(tm, {n_atom: C.ONE})
+
+        def f(a):
+            if a[0] == 'ifexp' and a[1] == gt1:
+                alt = a[3] if C.is_poly(a[3]) else C.atom(a[3])
+                return C.atom(('ifexp', gt1, a[2], C.subst_atoms(alt, {n_atom: C.ONE})))
+            return None
+        return C.rebuild(tm, f)
+    seen_empty = 0
+    verdict: Dict[tuple, List[bool]] = {}
+    detail: Dict[tuple, str] = {}
+    for v, conds, env_p, stores, node in mp.results:
+        cs = set(conds)
+        if any(C.mk_not(c) in cs for c in cs):
+            continue            # contradictory path conditions: not a path of the function
+        if cs & empty and not cs & nonempty:
+            seen_empty += 1
+            good = v == lst(C.sub(te, ts))
+            t = "isi_lengths: a train without spikes contributes one interval t_end - t_start"
+            obs.append(ok(rule, t, fi.loc(node), construct=f"{fn}::empty") if good else
+                       violation(rule, t, fi.loc(node), key=f"{fn}::empty-train", detail=C.show(v) if v is not None else 'None'))
+            continue
+        f1 = True if c_first in cs else False if C.mk_not(c_first) in cs else None
+        f2 = True if c_last in cs else False if C.mk_not(c_last) in cs else None
+        if f1 is None or f2 is None or v is None:
+            obs.append(inconclusive(rule, "isi_lengths: every non-empty path decides `s[0] > t_start` and `s[-1] < t_end`", fi.loc(node),
+                                    f"conditions {[C.show(c) for c in conds]}", construct=f"{fn}::path"))
+            continue
+        exp = C.add(C.add(lst(C.resolve_ifexp(want[('start', f1)], conds)), interior(C.ZERO if f1 else C.ONE, N if f2 else last)),
+                    lst(C.resolve_ifexp(want[('end', f2)], conds)))
+        got = one_spike(C.resolve_ifexp(v, conds), conds)
+        exp = one_spike(exp, conds)
+        good = got == exp
+        for key in (('start', f1), ('end', f2), ('interior', None)):
+            verdict.setdefault(key, []).append(good)
+            if not good:
+                detail[key] = f"on the path {[C.show(c) for c in conds]}\nreturns  {C.show(got)}\nexpected {C.show(exp)}"
+    if not seen_empty:
+        obs.append(violation(rule, "isi_lengths: a train without spikes contributes one interval t_end - t_start", fi.loc(),
+                             key=f"{fn}::empty-train", detail='no path for an empty train'))
+    for key in (('start', True), ('start', False), ('end', True), ('end', False)):
+        t = f"isi_lengths: {what[key]}"
+        vs = verdict.get(key)
+        if not vs:
+            obs.append(violation(rule, t, fi.loc(), key=f"{fn}::{key[0]}-rule::{'open' if key[1] else 'on-edge'}", detail='no such path'))
+        elif all(vs):
+            obs.append(ok(rule, t, fi.loc(), construct=f"{fn}::{key[0]}::{key[1]}"))
+        else:
+            obs.append(violation(rule, t, fi.loc(), key=f"{fn}::{key[0]}-rule::{'open' if key[1] else 'on-edge'}", detail=detail.get(key, '')))
+    t = "isi_lengths: result is [first interval] + interior ISIs s[i+1]-s[i] + [last interval], every spike pair counted once"
+    vs = verdict.get(('interior', None))
+    obs.append(ok(rule, t, fi.loc(), construct=f"{fn}::interior") if vs and all(vs) else
+               violation(rule, t, fi.loc(), key=f"{fn}::interior-isis", detail=detail.get(('interior', None), '')))
+    # rho mirror: the start rules are the time reflections of the end rules (reflection applied to the forms that
+    # the paths above were shown to return)
     rf = Reflect(t_start, t_end, {s: N})
     for flag in (True, False):
         t = (f"isi_lengths: the {'open' if flag else 'on-edge'} start rule is the mirror image (time reflection) of the "
              f"{'open' if flag else 'on-edge'} end rule")
-        got_s = None
-        for env_p, stores, conds in paths:
-            if (c_first in conds) == flag:
-                for nm, v in env_p.vals.items():
-                    if nm.endswith('start') and nm.startswith('del'):
-                        got_s = v
-            if (c_last in conds) == flag:
-                for nm, v in env_p.vals.items():
-                    if nm.endswith('end') and nm.startswith('del'):
-                        got_e = v
+        established = all(verdict.get(('start', flag), [False])) and all(verdict.get(('end', flag), [False]))
         try:
-            sa = C.single_atom(got_s)
-            rs = rf.rho_dur(got_s) if got_s is not None else None
+            rs = rf.rho_dur(want[('start', flag)])
         except Exception:
             rs = None
-        if rs is None:
-            obs.append(inconclusive(rule_mirror, t, fi.loc(), 'start rule not reflectable', construct=f"{fn}::mirror::{flag}"))
-            continue
-        # for a one-spike train s[N-1] = s[0]: normalise the N == 1 alternative
-        def one_spike(v):
-            return C.rebuild(v, lambda a: None)
-        if rs == got_e or _one_spike_equal(rs, got_e, s, N):
+        if rs is None or not established:
+            obs.append(inconclusive(rule_mirror, t, fi.loc(), 'edge rules not established (see R15.4)' if not established else
+                                    'start rule not reflectable', construct=f"{fn}::mirror::{flag}"))
+        elif rs == want[('end', flag)] or _one_spike_equal(rs, want[('end', flag)], s, N):
             obs.append(ok(rule_mirror, t, fi.loc(), construct=f"{fn}::mirror::{flag}"))
         else:
             obs.append(violation(rule_mirror, t, fi.loc(), key=f"{fn}::mirror::{'open' if flag else 'on-edge'}",
-                                 detail=f"rho(start rule) = {C.show(rs)}\nend rule         = {C.show(got_e)}"))
-    # interior intervals and concatenation
-    if ret_item is not None and paths:
-        env_p = paths[0][0]
-        t = "isi_lengths: result is [first interval] + interior ISIs + [last interval]"
-        good = False
-        for n in ast.walk(fi.node):
-            if isinstance(n, ast.ListComp) and len(n.generators) == 1:
-                g = n.generators[0]
-                e = C.canon_expr(n.elt, Env())
-                i = g.target.id if isinstance(g.target, ast.Name) else None
-                if i and e == C.sub(C.atom(('sub', ('n', s), C.add(C.atom(('n', i)), C.ONE))), C.atom(('sub', ('n', s), C.atom(('n', i))))):
-                    good = True
-        obs.append(ok(rule, t, fi.loc(ret_item[-1]), construct=f"{fn}::interior") if good else
-                   violation(rule, t, fi.loc(ret_item[-1]), key=f"{fn}::interior-isis"))
+                                 detail=f"rho(start rule) = {C.show(rs)}\nend rule         = {C.show(want[('end', flag)])}"))
     # ---- default_thresh_: RMS over the pool of all trains
     if 'default_thresh_' in mi.functions:
         f2 = mi.functions['default_thresh_']
